@@ -91,11 +91,10 @@ fn end_entry_cls(log: &Rc<RefCell<Vec<J>>>, v: &str, cls: &str) {
 fn err_class(e: &DltParseError) -> &'static str {
     match e { DltParseError::IncompleteParse { .. } => "incomplete", DltParseError::ParsingHickup(_) => "hickup", DltParseError::Unrecoverable(_) => "unrecoverable" }
 }
-fn class(e: &DltParseError) -> &'static str {
-    match e {
-        DltParseError::IncompleteParse { .. } => "inc",
-        _ => "err",
-    }
+/// the terminal entry of a read_message session: C07 only distinguishes end of stream from "an error" (a truncated tail may end either
+/// way, and which variant an error has is not stated) - so every error is "err", whether it comes from the reader or from the parser
+fn class(_e: &DltParseError) -> &'static str {
+    "err"
 }
 /// one session of next_message_slice until the first terminal outcome; `log` interleaves source reads, deliveries and the end
 pub fn slice_session(data: &[u8], sh: bool, sched: &[Resp], is_async: bool, cap: Option<usize>) -> (Vec<J>, Vec<Vec<u8>>) {
@@ -243,7 +242,7 @@ pub fn reader_event(data: &[u8], sh: bool, sched: &[Resp], is_async: bool, cap: 
         match v.as_str() {
             "msg" => sp.push(json!({"v": "msg", "m": r["m"]})),
             "filtered" => sp.push(json!({"v": "filtered", "n": r["n"]})),
-            "inc" => { sp.push(json!({"v": "inc"})); parse_ended = true; break; }
+            "inc" => { sp.push(json!({"v": "err"})); parse_ended = true; break; }
             "rej" => { sp.push(json!({"v": "err"})); parse_ended = true; break; }
             other => { sp.push(json!({"v": other})); parse_ended = true; break; }
         }
